@@ -2,7 +2,7 @@
 from dsim import seams
 from dsim.core import HarnessError, Sim, SimThread, SimEvent
 from dsim.net import SimNet
-from fakecass.ring import murmur3_token, RefRing
+from fakecass.ring import PARTITIONERS, RefRing
 from props.common import gen_strategy, quiet_logging, Violations, set_knob
 from worlds.full import FullWorld
 
@@ -34,7 +34,7 @@ WORLD_INFO = {'real': ['TokenAwarePolicy.make_query_plan, Metadata.get_replicas,
 ASSUMPTIONS = ['ring membership is static during a run (C42 covers token-map refresh); only host state changes',
                'with several LOCAL datacenters under NetworkTopologyStrategy the order is checked per datacenter']
 REQUIRED_PROBES = ['local_replica_prefix', 'replica_down_but_in_child_plan', 'remote_replica', 'shuffled_plan', 'nts_keyspace', 'rf_exceeds_nodes',
-                   'plan_between_state_steps', 'keyspace_without_replica_map']
+                   'plan_between_state_steps', 'keyspace_without_replica_map', 'legacy_partitioner']
 
 LOCAL, REMOTE, IGNORED = 0, 1, -1
 
@@ -57,10 +57,16 @@ def gen_plan(rng, tier):
     ntok = rng.choice([1, 1, 2, 4])
     toks = set()
     nodes = []
+    part = rng.choice(['murmur3'] * 7 + ['random'] * 2 + ['bytes'])
     for i in range(n):
         mine = []
         while len(mine) < ntok:
-            t = rng.choice([rng.randrange(-(1 << 63), 1 << 63), rng.randrange(-1000, 1000)])
+            if part == 'murmur3':
+                t = rng.choice([rng.randrange(-(1 << 63), 1 << 63), rng.randrange(-1000, 1000)])
+            elif part == 'random':
+                t = rng.choice([rng.randrange(0, 1 << 127), rng.randrange(0, 1 << 127), rng.randrange(0, 1000)])
+            else:
+                t = bytes(rng.randrange(256) for _ in range(rng.choice([1, 2, 4]))).hex()
             if t not in toks:
                 toks.add(t)
                 mine.append(t)
@@ -118,7 +124,7 @@ def gen_plan(rng, tier):
             t += rng.choice([0.1, 0.5, 1.5])
             events.append({'at': round(t, 3), 'kind': rng.choice(['crash', 'crash', 'restart', 'add_profile']), 'node': rng.randrange(1, n),
                            'how': rng.choice(['rst', 'rst', 'blackhole']), 'announce': rng.choice([None, 0.01, 0.2])})
-    return {'world': world, 'cluster': {'nodes': nodes, 'keyspaces': keyspaces}, 'dcs': dcs, 'child': child, 'shuffle': rng.random() < 0.3,
+    return {'world': world, 'cluster': {'nodes': nodes, 'keyspaces': keyspaces, 'partitioner': PARTITIONERS[part][0]}, 'partitioner': part, 'dcs': dcs, 'child': child, 'shuffle': rng.random() < 0.3,
             'keys': keys, 'ops': ops, 'events': events, 'planner': rng.random() < 0.5, 'executor_threads': rng.choice([1, 2, 4]),
             'strategy': gen_strategy(rng), 'time_jump_p': rng.choice([0, 0.1, 0.3]) if world == 'full' else 0,
             'line_p': rng.choice([0, 0.01, 0.05]), 'points': rng.choice([0, 2, 6])}
@@ -216,7 +222,9 @@ class Taker(object):
             if P != C:
                 V.add('C22/passthrough', 'not-the-child-plan', 'keyspace %r: plan %r, child plan %r' % (ks, P, C))
             return
-        R = self.ref.replicas(repl, murmur3_token(key))
+        R = self.ref.replicas(repl, PARTITIONERS[plan.get('partitioner', 'murmur3')][1](key))
+        if plan.get('partitioner', 'murmur3') != 'murmur3':
+            sim.probe('legacy_partitioner')
         if not R:
             sim.probe('keyspace_without_replica_map')
         if 'NetworkTopology' in repl['class']:
@@ -274,7 +282,8 @@ def line_funcs(M):
 
 
 def ref_ring(plan):
-    return RefRing([{'addr': addr_of(i), 'dc': n['dc'], 'rack': n['rack'], 'tokens': [int(t) for t in n['tokens']]}
+    parse = PARTITIONERS[plan.get('partitioner', 'murmur3')][2]
+    return RefRing([{'addr': addr_of(i), 'dc': n['dc'], 'rack': n['rack'], 'tokens': [parse(t) for t in n['tokens']]}
                     for i, n in enumerate(plan['cluster']['nodes'])])
 
 
@@ -304,7 +313,7 @@ def run_direct(plan, seed, choices):
         hosts.append(h)
     for name, repl in plan['cluster']['keyspaces'].items():
         md.keyspaces[name] = cmeta.KeyspaceMetadata(name, True, repl['class'], dict((k, v) for k, v in repl.items() if k != 'class'))
-    md.rebuild_token_map('org.apache.cassandra.dht.Murmur3Partitioner', dict((hosts[i], nodes[i]['tokens']) for i in range(n)))
+    md.rebuild_token_map(PARTITIONERS[plan.get('partitioner', 'murmur3')][0], dict((hosts[i], nodes[i]['tokens']) for i in range(n)))
     ref = ref_ring(plan)
     for name, repl in plan['cluster']['keyspaces'].items():
         if 'Simple' in repl['class'] and int(repl['replication_factor']) > n:
